@@ -251,7 +251,18 @@ def run_sdc(case, r):
         # ---- update_nodes
         u0 = U[0]
         Uold = U[1:]
-        L.sweep.update_nodes()
+        # the mass-matrix sweeper has two forms: on the finest level u0 enters mass-weighted, on coarser levels (level_index > 0)
+        # it is the restricted, already weighted value and enters as it is; every second k is swept as a coarser level
+        as_coarse = fam == 'mass' and k % 2 == 0
+        if as_coarse:
+            keep_index = L.level_index
+            L.level_index = 1 + k % 3
+            r.count('mass_sweeps_as_coarse_level')
+        try:
+            L.sweep.update_nodes()
+        finally:
+            if as_coarse:
+                L.level_index = keep_index
         got = read_u(L)
         if fam == 'impl' or fam == 'expl':
             exp = ref.sweep_implicit(Q, QD, A, dt, u0, Uold, G, tau)
@@ -260,7 +271,7 @@ def run_sdc(case, r):
         elif fam == 'multi':
             exp = ref.sweep_multi_implicit(Q, Q1, Q2, A, B, dt, u0, Uold, G, tau)
         else:
-            exp = ref.sweep_imex_mass(Q, QI, QE, dE, A, B, np.asarray(pp['Mm']), dt, u0, Uold, G, None, tau, fine=True)
+            exp = ref.sweep_imex_mass(Q, QI, QE, dE, A, B, np.asarray(pp['Mm']), dt, u0, Uold, G, None, tau, fine=not as_coarse)
         scale = max(1.0, float(np.max(np.abs(exp))), float(np.max(np.abs(U))))
         e = float(np.max(np.abs(got[1:] - exp)))
         tol = 1e-12 * max(cond, 10.0) * scale
